@@ -125,25 +125,33 @@ class FileSplicer:
         a, b = it.head_si, it.body_close + 1
 
         # ---- N1: tracing
-        for at in it.attrs:
-            if 'tracing::instrument' in at:
-                i0 = self.text.find(at, it.lo, src.t(it.kw_si).start)
-                self.ed.delete(i0, i0 + len(at)); applied.append('N1')
+        self.n1(it, applied)
+
+        # ---- N21: panic!/unreachable!/assert!/assert_eq! -> obligations
         k = it.body_open
         while k < it.body_close:
             t = src.t(k)
-            if t.kind == 'ident' and t.text in TRACING_MACROS and src.is_p(k + 1, '!') and src.is_p(k + 2, '('):
-                prev = src.t(k - 1)
-                if prev.kind == 'punct' and prev.text in ('{', '}', ';') :
-                    e = src.match(k + 2)
-                    endtok = e + 1 if src.is_p(e + 1, ';') else e
-                    self.ed.delete(t.start, src.t(endtok).end); applied.append('N1')
-                    k = endtok + 1; continue
-                if prev.kind == 'punct' and prev.text == '>' and src.is_p(k - 2, '='):
-                    # match arm whose body is only a tracing macro: `=> trace!(..),` -> `=> {},`
-                    e = src.match(k + 2)
-                    self.ed.replace(t.start, src.t(e).end, '{}'); applied.append('N1')
-                    k = e + 1; continue
+            if t.kind == 'ident' and t.text in ('panic', 'unreachable', 'unimplemented', 'todo') and src.is_p(k + 1, '!') and src.t(k + 2).kind == 'punct' and src.t(k + 2).text in OPEN:
+                e = src.match(k + 2)
+                stmt = src.is_p(e + 1, ';')
+                self.ed.replace(t.start, src.t(e).end, 'vx_panic::<()>()' if stmt else 'vx_panic()'); applied.append('N21')
+                k = e + 1; continue
+            if t.kind == 'ident' and t.text in ('assert', 'assert_eq', 'assert_ne', 'debug_assert') and src.is_p(k + 1, '!') and src.is_p(k + 2, '('):
+                e = src.match(k + 2)
+                # split top-level arguments
+                args = []; a0 = k + 3; q = k + 3
+                while q < e:
+                    tt = src.t(q)
+                    if tt.kind == 'punct' and tt.text in OPEN: q = src.match(q) + 1; continue
+                    if tt.kind == 'punct' and tt.text == ',': args.append((a0, q)); a0 = q + 1
+                    q += 1
+                if a0 < e: args.append((a0, e))
+                txt = [src.text_of(a, b) for (a, b) in args]
+                if t.text in ('assert', 'debug_assert'): cond = txt[0]
+                elif t.text == 'assert_eq': cond = '(%s) == (%s)' % (txt[0], txt[1])
+                else: cond = '(%s) != (%s)' % (txt[0], txt[1])
+                self.ed.replace(t.start, src.t(e).end, 'vx_assert(%s)' % cond); applied.append('N21')
+                k = e + 1; continue
             k += 1
 
         # ---- token rules (N10 and friends)
@@ -360,6 +368,47 @@ class FileSplicer:
                     q = src.skip_group(q)
                 self.ed.insert(src.t(q).end, ' %s:' % name)
 
+        # ---- N18: ghost monitor around the k-th call of `.method(`: `RECV.m(ARG)` -> `{ let vx_a = ARG; <pre> let vx_r = RECV.m(vx_a); <post> vx_r }`
+        for s in subs:
+            if s.word == 'callmon':
+                k_ord = int(s.args[0]); meth = s.args[1]
+                recv_filter = s.args[2] if len(s.args) > 2 else None
+                hits = []
+                for k in find_token_seq(src, it.body_open, it.body_close, ['.', meth, '(']):
+                    rs0 = self.postfix_start(k - 1)
+                    rtxt = re.sub(r'\s+', '', src.text_of(rs0, k))
+                    if recv_filter is None or rtxt.endswith(recv_filter):
+                        hits.append(k)
+                if k_ord >= len(hits):
+                    if s.optional:
+                        self.report['file_rules'].append({'file': self.fs.path, 'rule': 'note', 'text': 'fn %s: optional monitored call .%s( #%d not present' % (key, meth, k_ord)})
+                        continue
+                    raise SpliceError('lost anchor: fn %s monitored call .%s( #%d (found %d)' % (key, meth, k_ord, len(hits)))
+                k = hits[k_ord]
+                rs = self.postfix_start(k - 1)
+                po = k + 2; pc = src.match(po)
+                pre, _, post = s.text.partition('\n----\n')
+                pre, ids1 = mark_obligations(pre); post, ids2 = mark_obligations(post); clause_ids += ids1 + ids2
+                has_arg = pc > po + 1
+                recv_txt = src.text_of(rs, k)
+                if has_arg:
+                    arg_txt = self.ed.apply(self.text, src.t(po + 1).start, src.t(pc - 1).end)
+                    self.ed.drop_range(src.t(po + 1).start, src.t(pc - 1).end)
+                    head = '{ let vx_a = %s; %s let vx_r = %s.%s(vx_a)' % (arg_txt, pre, recv_txt, meth)
+                else:
+                    head = '{ %s let vx_r = %s.%s()' % (pre, recv_txt, meth)
+                # a following `.await` (already rewritten by N2) must stay attached to the call: find it
+                tail_end = pc
+                self.ed.replace(src.t(rs).start, src.t(pc).end, head)
+                # close after an immediately following `.await`
+                if src.is_p(pc + 1, '.') and src.is_id(pc + 2, 'await'):
+                    self.ed.insert(src.t(pc + 2).end, '; %s vx_r }' % post)
+                else:
+                    self.ed.insert(src.t(pc).end, '; %s vx_r }' % post)
+                applied.append('N18')
+            if s.word == 'select':
+                self.select_rewrite(it, applied)
+
         # ---- N10 (method form): `RECV.m(ARGS)` -> `wrapper(RECV, ARGS)` for provided trait methods that cannot carry a specification
         for s in subs:
             if s.word == 'wrapcall':
@@ -415,6 +464,9 @@ class FileSplicer:
                 rid, pat, rep = s.args[0], pat_tokens(s.args[1]), s.args[2]
                 hits = find_token_seq(src, it.head_si, it.body_close, pat)
                 if not hits:
+                    if s.optional:
+                        self.report['file_rules'].append({'file': self.fs.path, 'rule': 'note', 'text': 'fn %s: optional token pattern %r not present' % (key, s.args[1])})
+                        continue
                     raise SpliceError('lost anchor: fn %s token pattern %r' % (key, s.args[1]))
                 for k in hits:
                     self.ed.replace(src.t(k).start, src.t(k + len(pat) - 1).end, rep); applied.append(rid)
@@ -425,6 +477,9 @@ class FileSplicer:
                 k_ord = int(s.args[0]); pat = pat_tokens(s.args[1])
                 hits = find_token_seq(src, it.body_open, it.body_close, pat)
                 if k_ord >= len(hits):
+                    if s.optional:
+                        self.report['file_rules'].append({'file': self.fs.path, 'rule': 'note', 'text': 'fn %s: optional anchor %r #%d not present' % (key, s.args[1], k_ord)})
+                        continue
                     raise SpliceError('lost anchor: fn %s call %r #%d (found %d)' % (key, s.args[1], k_ord, len(hits)))
                 sa, se = self.stmt_bounds(hits[k_ord], it.body_open, it.body_close)
                 t, ids = mark_obligations(s.text); clause_ids += ids
@@ -450,6 +505,85 @@ class FileSplicer:
             'assumed_here': 'external_body' in attr_txt,
         })
         return attr_txt
+
+    def select_rewrite(self, it: Item, applied):
+        """N3: `tokio::select!{ a = F1 => B1 b = F2 => B2 }` -> `if tokio::vx_select2() { let a = F1; B1 } else { let b = F2; B2 }`
+        (F awaited through the stand-in unless it is a de-async'ed in-repo call)"""
+        src = self.src
+        k = it.body_open
+        found = False
+        while k < it.body_close:
+            if src.is_id(k, 'select') and src.is_p(k + 1, '!') and src.is_p(k + 2, '{'):
+                start = k
+                if src.is_p(k - 1, ':') and src.is_p(k - 2, ':') and src.is_id(k - 3, 'tokio'): start = k - 3
+                o = k + 2; c = src.match(o)
+                arms = []
+                q = o + 1
+                while q < c:
+                    # PAT = FUT => BODY[,]
+                    ps = q
+                    while not src.is_p(q, '='): q = src.skip_group(q)
+                    pe = q; q += 1
+                    fs_ = q
+                    while not (src.is_p(q, '=') and src.is_p(q + 1, '>') and src.t(q).end == src.t(q + 1).start): q = src.skip_group(q)
+                    fe = q; q += 2
+                    if not src.is_p(q, '{'): raise SpliceError('unsupported: select! arm body is not a block in fn %s' % it.name)
+                    be = src.match(q)
+                    arms.append((ps, pe, fs_, fe, q, be))
+                    q = be + 1
+                    if src.is_p(q, ','): q += 1
+                if len(arms) != 2: raise SpliceError('unsupported: select! with %d arms in fn %s' % (len(arms), it.name))
+                parts = []
+                for (ps, pe, fs_, fe, bo, be) in arms:
+                    fut = self.ed.apply(self.text, src.t(fs_).start, src.t(fe - 1).end)
+                    callee = None
+                    if src.is_p(fe - 1, ')'):
+                        oo = src.match(fe - 1)
+                        if src.is_id(oo - 1): callee = src.t(oo - 1).text
+                    aw = '' if callee in self.deasync_strip else '.vx_await()'
+                    body = self.ed.apply(self.text, src.t(bo).start, src.t(be).end)
+                    parts.append('let %s = %s%s; %s' % (src.text_of(ps, pe), fut, aw, body))
+                self.ed.drop_range(src.t(start).start, src.t(c).end)
+                self.ed.replace(src.t(start).start, src.t(c).end, 'if tokio::vx_select2() { %s } else { %s }' % (parts[0], parts[1]))
+                applied.append('N3'); found = True
+                k = c + 1; continue
+            k += 1
+        if not found:
+            raise SpliceError('lost anchor: fn %s has no select!' % it.name)
+
+    def n1(self, it: Item, applied):
+        """strip tracing: #[tracing::instrument], statement macros, `let x = span!(..);`, `.instrument(..)` adapters"""
+        src = self.src
+        for at in it.attrs:
+            if 'tracing::instrument' in at:
+                i0 = self.text.find(at, it.lo, src.t(it.kw_si).start)
+                self.ed.delete(i0, i0 + len(at)); applied.append('N1')
+        k = it.body_open
+        while k < it.body_close:
+            t = src.t(k)
+            if t.kind == 'ident' and t.text in TRACING_MACROS and src.is_p(k + 1, '!') and src.is_p(k + 2, '('):
+                prev = src.t(k - 1)
+                if prev.kind == 'punct' and prev.text in ('{', '}', ';'):
+                    e = src.match(k + 2)
+                    endtok = e + 1 if src.is_p(e + 1, ';') else e
+                    self.ed.delete(t.start, src.t(endtok).end); applied.append('N1')
+                    k = endtok + 1; continue
+                if prev.kind == 'punct' and prev.text == '>' and src.is_p(k - 2, '='):
+                    e = src.match(k + 2)
+                    self.ed.replace(t.start, src.t(e).end, '{}'); applied.append('N1')
+                    k = e + 1; continue
+            # `let NAME = span!(..);`
+            if t.kind == 'ident' and t.text == 'let' and src.is_id(k + 1) and src.is_p(k + 2, '=') and src.is_id(k + 3, 'span') and src.is_p(k + 4, '!'):
+                e = src.match(k + 5)
+                endtok = e + 1 if src.is_p(e + 1, ';') else e
+                self.ed.delete(t.start, src.t(endtok).end); applied.append('N1')
+                k = endtok + 1; continue
+            # `.instrument(..)`
+            if src.is_p(k, '.') and src.is_id(k + 1, 'instrument') and src.is_p(k + 2, '('):
+                e = src.match(k + 2)
+                self.ed.delete(t.start, src.t(e).end); applied.append('N1')
+                k = e + 1; continue
+            k += 1
 
     def n2(self, it: Item, applied):
         src = self.src
@@ -752,7 +886,7 @@ class FileSplicer:
         for d in fs.dirs:
             if d.word in ('rule', 'deasync'):
                 continue
-            if d.word in ('deasync_impl', 'deasync_fn'):
+            if d.word in ('deasync_impl', 'deasync_fn', 'normalize_all'):
                 continue
             if d.word == 'imports':
                 imports += d.text + '\n'
@@ -913,6 +1047,25 @@ class FileSplicer:
                     if ch.kind == 'fn' and id(ch) not in lifted and ch.body_open >= 0:
                         ap = []; self.n2(ch, ap); n += len(ap)
                 self.report['file_rules'].append({'file': fs.path, 'rule': 'N2', 'text': 'unlifted members of impl %s (%d edits)' % (key, n)})
+            if d.word == 'normalize_all':
+                # N1 + N2 on every fn of this file that is not lifted (the whole module must compile against the synchronous tokio stand-in)
+                lifted = set()
+                for lst in self.lifted_members.values():
+                    for (x, _, _) in lst: lifted.add(id(x))
+                for iid, (impl, _) in self.whole_impls.items():
+                    for ch in impl.children: lifted.add(id(ch))
+                top_lifted = {dd.args[1] for dd in fs.dirs if dd.word == 'lift' and dd.args[0] == 'fn' and '::' not in dd.args[1]}
+                n = 0
+                def walk(items):
+                    nonlocal n
+                    for x in items:
+                        if x.cfg_test: continue
+                        if x.kind == 'fn' and x.body_open >= 0 and id(x) not in lifted and x.name not in top_lifted:
+                            ap = []; self.n1(x, ap); self.n2(x, ap); n += len(ap)
+                        elif x.kind in ('impl', 'trait'):
+                            walk(x.children)
+                walk(self.items)
+                self.report['file_rules'].append({'file': fs.path, 'rule': 'N1+N2', 'text': 'all unlifted fns of the file (%d edits)' % n})
             if d.word == 'deasync_fn':
                 _, it = self.find_fn(d.args[0])
                 ap = []; self.n2(it, ap)
